@@ -118,6 +118,8 @@ struct Job {
     seed: u64,
     calls: u64,
     sessions: u64,
+    /// run the deterministic accessor x variant x ANSI pass first
+    scripted: bool,
 }
 
 struct JobResult {
@@ -134,6 +136,9 @@ fn job_command(j: &Job, b: &Built, scratch: &Path) -> Option<Command> {
     std::fs::create_dir_all(root.join("openbangla-keyboard")).ok()?;
     let args = |c: &mut Command, mode: &str| {
         c.arg(j.seed.to_string()).arg(j.calls.to_string()).arg(mode).arg(&root).arg(j.sessions.to_string());
+        if j.scripted {
+            c.arg("scripted");
+        }
     };
     match j.engine {
         "native" => {
@@ -194,7 +199,7 @@ fn run_jobs(jobs: Vec<Job>, b: &Built, logs: &Path, scratch: &Path, par: usize) 
 fn judge_job(r: &JobResult, out: &mut Out) -> Result<(), String> {
     let j = &r.job;
     let text = std::fs::read_to_string(&r.log).unwrap_or_default();
-    let case = json!({"engine": j.engine, "seed": j.seed, "calls": j.calls, "sessions": j.sessions});
+    let case = json!({"engine": j.engine, "seed": j.seed, "calls": j.calls, "sessions": j.sessions, "scripted": j.scripted});
     let keep_log = |out: &mut Out| -> String {
         let dst = format!("{VERIF}/replays/C19-{}-{}.log", j.engine, j.seed);
         let _ = std::fs::copy(&r.log, &dst);
@@ -295,28 +300,28 @@ fn jobs_for(tier: Tier, seed: u64) -> Vec<Job> {
     match tier {
         Tier::Quick => {
             for i in 0..16 {
-                v.push(Job { engine: "native", seed: base + i, calls: 12_000, sessions: 2 });
+                v.push(Job { engine: "native", seed: base + i, calls: 12_000, sessions: 2, scripted: false });
             }
             for i in 0..16 {
-                v.push(Job { engine: "asan", seed: base + 100 + i, calls: 8_000, sessions: 2 });
+                v.push(Job { engine: "asan", seed: base + 100 + i, calls: 8_000, sessions: 2, scripted: true });
             }
             for i in 0..6 {
-                v.push(Job { engine: "valgrind", seed: base + 200 + i, calls: 120, sessions: 1 });
+                v.push(Job { engine: "valgrind", seed: base + 200 + i, calls: 120, sessions: 1, scripted: false });
             }
-            v.push(Job { engine: "miri", seed: base + 300, calls: 160, sessions: 1 });
+            v.push(Job { engine: "miri", seed: base + 300, calls: 20, sessions: 1, scripted: true });
         }
         Tier::Thorough => {
             for i in 0..32 {
-                v.push(Job { engine: "native", seed: base + i, calls: 60_000, sessions: 6 });
+                v.push(Job { engine: "native", seed: base + i, calls: 60_000, sessions: 6, scripted: false });
             }
             for i in 0..48 {
-                v.push(Job { engine: "asan", seed: base + 100 + i, calls: 30_000, sessions: 4 });
+                v.push(Job { engine: "asan", seed: base + 100 + i, calls: 30_000, sessions: 4, scripted: true });
             }
             for i in 0..16 {
-                v.push(Job { engine: "valgrind", seed: base + 200 + i, calls: 700, sessions: 1 });
+                v.push(Job { engine: "valgrind", seed: base + 200 + i, calls: 700, sessions: 1, scripted: false });
             }
             for i in 0..16 {
-                v.push(Job { engine: "miri", seed: base + 300 + i, calls: 350, sessions: 3 });
+                v.push(Job { engine: "miri", seed: base + 300 + i, calls: 350, sessions: 3, scripted: true });
             }
         }
     }
@@ -331,7 +336,7 @@ impl Prop for C19 {
         "random life cycles over all 33 exported functions with valid handles and in-range indices: pools of live configs, contexts, suggestions and strings; every suggestion gets a shadow copy taken through the Rust API from the very same object \
          (the driver casts the pointer it was handed), every C read-out is compared with it at creation, at random later points (after more events on, re-configuration of, or the freeing of its context) and at teardown; strings are kept alive and re-read; \
          null frees; configs freed right after use; then everything is freed, half of the sessions contexts-first. Engines: native build (volume), AddressSanitizer + LeakSanitizer build (quick 16 processes x 16k calls, thorough 48 x 120k), \
-         Miri with a 144-word data directory (aliasing, mismatched deallocation, leaks that red zones cannot see), and a C driver compiled by clang against include/riti.h and linked with libriti.a under valgrind memcheck (header vs ABI). \
+         Miri with a 144-word data directory (aliasing, mismatched deallocation, leaks that red zones cannot see; every Miri and ASan process starts with a deterministic pass over every accessor x suggestion variant x ANSI on/off, then random calls), and a C driver compiled by clang against include/riti.h and linked with libriti.a under valgrind memcheck (header vs ABI). \
          distinct_nontrivial = distinct (engine, function) pairs called at least once."
             .into()
     }
@@ -412,7 +417,7 @@ impl Prop for C19 {
         let scratch = PathBuf::from(format!("/dev/shm/verif-c19-{}", std::process::id()));
         let _ = std::fs::create_dir_all(&scratch);
         let built = build_all(&logs, engine == "miri");
-        let results = run_jobs(vec![Job { engine, seed: g("seed"), calls: g("calls"), sessions: g("sessions") }], &built, &logs, &scratch, 1);
+        let results = run_jobs(vec![Job { engine, seed: g("seed"), calls: g("calls"), sessions: g("sessions"), scripted: case.get("scripted").and_then(|b| b.as_bool()).unwrap_or(false) }], &built, &logs, &scratch, 1);
         for r in &results {
             if let Err(e) = judge_job(r, out) {
                 out.note(e);
